@@ -89,12 +89,20 @@ func VerifH_C09_vacuum() {
 	symAssert(err == nil, "second-vacuum-ok")
 	names2 := bkt.names("")
 	symAssert(symDeepEq(names1, names2), "second-vacuum-changes-nothing")
-	// still writable
+	// still writable: a fresh key, and every key that is not visible (never
+	// inserted, or deleted and possibly vacuumed away) can be inserted again
 	symAssert(vIns(w, 9000, int64(7), int64(70), nil) == nil, "writable-after-vacuum")
+	added := 1
+	for _, k := range []int64{1, 2} {
+		if vis, _ := vHas(w, k); !vis {
+			symAssert(vIns(w, 9001, k, int64(5), nil) == nil, "vacuumed-key-can-be-inserted-again")
+			added++
+		}
+	}
 	symAssert(w.Commit(vCtx) == nil, "commit-after-vacuum-ok")
 	final, err := vFreshRows(bkt)
 	symAssert(err == nil, "fresh-open-after-write-ok")
-	symAssert(len(final) == len(before)+1, "write-after-vacuum-visible")
+	symAssert(len(final) == len(before)+added, "write-after-vacuum-visible")
 	symReach("end")
 }
 
@@ -184,5 +192,50 @@ func VerifH_C10_marker_wins() {
 	visible, err := vHas(m, int64(1))
 	symAssert(err == nil, "get-ok")
 	symAssert(!visible, "retained-delete-beats-older-write")
+	symReach("end")
+}
+
+// H10d: vacuum reports success only when it reclaimed what the cutoff allows:
+// with one storage fault at a symbolic request, either it fails (and a retry
+// finishes the job) or the bucket holds exactly what a fault-free vacuum leaves.
+func VerifH_C10_reclaim() {
+	shape := symChoice("shape", 3)
+	cut := int64(5000)
+	ref := vNewBucket()
+	rw := vC04VacuumSetup(ref, shape)
+	tables["t"] = rw
+	r0 := ref.reqs
+	symAssert(Vacuum(vCtx, "t", time.Unix(0, cut)) == nil, "reference-vacuum-ok")
+	nreq := ref.reqs - r0
+	want := ref.names("")
+
+	bkt := vNewBucket()
+	w := vC04VacuumSetup(bkt, shape)
+	tables["t"] = w
+	f := symInt("fault")
+	symAssume(f >= 0)
+	symAssume(f < nreq)
+	bkt.faultOn, bkt.faultAt = true, bkt.reqs+f
+	verr := Vacuum(vCtx, "t", time.Unix(0, cut))
+	bkt.faultOn = false
+	symObserve("vacuum_failed", verr != nil)
+	if verr != nil {
+		// the fault is gone: the same vacuum now completes
+		symAssert(Vacuum(vCtx, "t", time.Unix(0, cut)) == nil, "retry-after-fault-ok")
+		symReach("retried")
+	}
+	got := bkt.names("")
+	if !symIsSymbolic() && !symDeepEq(got, want) {
+		for _, l := range bkt.log {
+			println("VERIF-DBG log", l)
+		}
+		for _, n := range got {
+			println("VERIF-DBG got", n)
+		}
+		for _, n := range want {
+			println("VERIF-DBG want", n)
+		}
+	}
+	symAssert(symDeepEq(got, want), "successful-vacuum-reclaimed-exactly-what-the-cutoff-allows")
 	symReach("end")
 }
